@@ -7,6 +7,7 @@ import (
 	"errors"
 	"net"
 	"net/http"
+	"strings"
 	"sync"
 	"time"
 	"unsafe"
@@ -32,6 +33,7 @@ import (
 //vp:all model (*github.com/bolkedebruin/rdpgw/cmd/rdpgw/transport.LegacyPKT).SendAccept = vpmLGSendAccept
 //vp:all model (*github.com/bolkedebruin/rdpgw/cmd/rdpgw/transport.LegacyPKT).Drain = vpmLGDrainE
 //vp:all stub (*github.com/gorilla/websocket.Upgrader).Upgrade = vpUpgrade
+//vp:all model github.com/gorilla/websocket.IsWebSocketUpgrade = vpIsWSUpgrade
 //vp:all stub (*github.com/gorilla/websocket.Conn).Close = vpWSConnClose
 //vp:all stub (*github.com/gorilla/websocket.Conn).SetReadLimit = vpWSSetReadLimit
 //vp:all stub (*github.com/gorilla/websocket.Conn).UnderlyingConn = vpWSUnderlying
@@ -162,10 +164,27 @@ var vpUpgradeFails bool
 var vpWSConnCloses int
 
 func vpUpgrade(u *websocket.Upgrader, w http.ResponseWriter, r *http.Request, h http.Header) (*websocket.Conn, error) {
-	if vpUpgradeFails {
+	if vpUpgradeFails || !vpIsWSUpgrade(r) {
 		return nil, errors.New("vp: not a websocket handshake")
 	}
 	return nil, nil
+}
+
+// gorilla's IsWebSocketUpgrade: "Connection" lists the token upgrade AND "Upgrade" lists the token
+// websocket (tokens compared without regard to case, lists separated by commas).
+func vpIsWSUpgrade(r *http.Request) bool {
+	return vpTokenListHas(r.Header, "Connection", "upgrade") && vpTokenListHas(r.Header, "Upgrade", "websocket")
+}
+
+func vpTokenListHas(h http.Header, name, token string) bool {
+	for _, v := range h[name] {
+		for _, part := range strings.Split(v, ",") {
+			if strings.EqualFold(strings.TrimSpace(part), token) {
+				return true
+			}
+		}
+	}
+	return false
 }
 func vpWSConnClose(c *websocket.Conn) error      { vpWSConnCloses++; return nil }
 // the connection below the websocket (nil unless a harness sets it)
